@@ -557,6 +557,28 @@ def run(prog: Program) -> Results:
                         f"{f.key}: `{norm(n)[:60]}` runs for every matching comment of the loop and the slot holds one: in "
                         f"`x: /* a */ /* b */ y` both comments follow the colon on its line, the second overwrites the first, and "
                         f"`/* a */` is gone from the output")
+    # ---------------------------------------------------------------- R-C03-13 window filters are closed at their start anchor
+    r13 = res.rule("R-C03-13", "a window filter that picks the comments between two anchors is closed at the first one: "
+                   "`A.end_byte <= c.start_byte < B.start_byte` (every sibling filter is written this way). A comment written "
+                   "directly against the first token (`a/* c */;`) starts exactly at A.end_byte; with a strict `<` it belongs to no "
+                   "window and is dropped", floor=5)
+    for f in prog.all_functions():
+        if not f.module.startswith("nix_manipulator/expressions/"):
+            continue
+        for c in walk_no_nested(f.node):
+            if not (isinstance(c, ast.Compare) and len(c.ops) == 2 and all(isinstance(x, ast.Attribute) and x.attr in ("start_byte", "end_byte")
+                                                                            for x in [c.left] + c.comparators)):
+                continue
+            a, m, b = c.left, c.comparators[0], c.comparators[1]
+            if not (a.attr == "end_byte" and m.attr == "start_byte" and b.attr == "start_byte"):
+                continue
+            r13.instances += 1
+            ok = isinstance(c.ops[0], ast.LtE) and isinstance(c.ops[1], ast.Lt)
+            r13.ob(ok, {"site": f.key, "window": norm(c)[:80]})
+            if not ok:
+                res.add("R-C03-13", (f.key, "comment window open at its start anchor", alpha(c, f.node, anonymous=True)[:60]), f.loc(c),
+                        f"{f.key}: `{norm(c)[:80]}` excludes a comment that starts exactly where `{norm(a.value)}` ends: "
+                        f"`{{ inherit a/* c */; }}` (no blank between the name and the comment) is rebuilt without the comment")
     res.tables.append(f"sa/tables/grammar.py: {len(PRODUCTIONS)} productions, {len(GENERIC_CLASSES)} generic walkers")
     res.assumptions = ["relative order of two comments routed into different slots of the same gap is a value-level fact and is not decided"]
     return res
